@@ -1,6 +1,6 @@
 (* C10 - a table renders the same whatever wrapper created it or is wrapped
    around it.  Only statements; proofs in Proofs/WrapProofs.v. *)
-From Tab Require Import Model.Wrap Model.Csv Proofs.WrapProofs.
+From Tab Require Import Model.Wrap Model.Csv Proofs.WrapProofs Model.WrapObj Proofs.WrapObjProofs.
 From Tab Require Model.Markdown Model.Json Model.Text Model.Decoration Model.Html.
 
 (* For every choice of renderer bodies (out / degraded), every start state and
@@ -49,9 +49,74 @@ Theorem c10_all_formats : forall W strenc d id cls cap have rcs (U : Type) degra
 Proof. intros. apply render_is_out. assumption. Qed.
 Print Assumptions c10_all_formats.
 
+(* ---- wrappers as mutable, caller-visible OBJECTS (Model/WrapObj.v): any
+   options type O, any default options per kind, any renderer bodies taking the
+   options of the wrapper rendered through; histories of building, in-place
+   item changes (PUpdate), Wrap / auto.Wrap / New (a new object each time),
+   option setting by whoever holds an object (PTune), renders through objects
+   and through the package-level / auto functions (PFresh). *)
+
+(* a render through wrapper object i is its kind's output under ITS OWN options
+   for the current view *)
+Theorem c10_obj_render_is_out : forall (U O : Type) (dflt : kind -> O) out degraded (ps : list (oop U O)) v u i w,
+  nth_error (o_heap (orun dflt (oinit v u) ps)) i = Some w ->
+  orender out degraded (orun dflt (oinit v u) ps) i
+  = Some (out (w_kind w) (w_opts w) (st_view (o_tab (orun dflt (oinit v u) ps)))).
+Proof. exact obj_render_is_out. Qed.
+Print Assumptions c10_obj_render_is_out.
+
+(* package-level Render/RenderTo and auto.Render/RenderTo (Wrap, then Render of
+   the new object): the kind's output under the DEFAULT options, in every state *)
+Theorem c10_fresh_is_default : forall (U O : Type) (dflt : kind -> O) out degraded (s : ostate U O) k,
+  fresh_render dflt out degraded s k = Some (out k (dflt k) (st_view (o_tab s))).
+Proof. exact fresh_is_default. Qed.
+Print Assumptions c10_fresh_is_default.
+
+(* a wrapper whose options are the defaults, the package-level functions and
+   auto agree after every history *)
+Theorem c10_entry_points_agree : forall (U O : Type) (dflt : kind -> O) out degraded (ps : list (oop U O)) v u i w,
+  nth_error (o_heap (orun dflt (oinit v u) ps)) i = Some w -> w_opts w = dflt (w_kind w) ->
+  orender out degraded (orun dflt (oinit v u) ps) i
+  = fresh_render dflt out degraded (orun dflt (oinit v u) ps) (w_kind w).
+Proof. exact entry_points_agree. Qed.
+Print Assumptions c10_entry_points_agree.
+
+(* what OTHER holders set on THEIR wrapper objects is invisible through
+   wrapper i: dropping all those settings from the history changes nothing *)
+Theorem c10_others_options_invisible : forall (U O : Type) (dflt : kind -> O) out degraded (ps : list (oop U O)) v u i,
+  orender out degraded (orun dflt (oinit v u) ps) i
+  = orender out degraded (orun dflt (oinit v u) (forget i ps)) i.
+Proof. exact others_options_invisible. Qed.
+Print Assumptions c10_others_options_invisible.
+
+(* an item changed in place and its cell updated: every wrapper object, made
+   before or after the cell was added, rendered before or not, shows the new
+   view; nothing else the caller can see changes *)
+Theorem c10_update_shows : forall (U O : Type) (dflt : kind -> O) out degraded (ps : list (oop U O)) v u v' i w,
+  nth_error (o_heap (orun dflt (oinit v u) ps)) i = Some w ->
+  orender out degraded (ostep dflt (orun dflt (oinit v u) ps) (PUpdate v')) i = Some (out (w_kind w) (w_opts w) v')
+  /\ st_user (o_tab (ostep dflt (orun dflt (oinit v u) ps) (PUpdate v'))) = st_user (o_tab (orun dflt (oinit v u) ps)).
+Proof. exact update_shows. Qed.
+Print Assumptions c10_update_shows.
+
 (* non-vacuity: core table, wrapped as csv then text then markdown, rendered as text *)
 Example c10_example :
   let ops : list (op unit) := [OWrap KCsv; OBuild (mkView 1 None [] [None; None] [None; None]) tt; OWrap KText; ORender KCsv; OWrap KMd] in
   wrapped KText ops /\
   render (fun _ _ => Ok [1%N]) (fun _ _ _ => Ok [2%N]) (run (init (mkView 0 None [] [None] [None]) tt) ops) KText = Ok [1%N].
 Proof. cbv zeta. split; [right; right; left; reflexivity | vm_compute; reflexivity]. Qed.
+
+(* non-vacuity, objects: a text wrapper made around the empty table and rendered,
+   a second one re-configured by its holder, rows added, an item changed in
+   place: the first wrapper shows the new view under the default options, the
+   second under its own, and the package-level function agrees with the first *)
+Example c10_example_objects :
+  let v0 := mkView 0 None [] [None] [None] in
+  let v1 := mkView 1 None [] [None; None] [None; None] in
+  let ps : list (oop unit nat) := [PWrap KText; PRender 0; PWrap KText; PTune 1 7; PBuild v0 tt; PFresh KMd; PUpdate v1] in
+  let outf := fun (k : kind) (o : nat) (v : view) => Ok [N.of_nat o; N.of_nat (v_ncols v)] in
+  let s := orun (fun _ => 0) (oinit v0 tt) ps in
+  orender outf (fun _ _ _ _ => Err) s 0 = Some (Ok [0%N; 1%N]) /\
+  orender outf (fun _ _ _ _ => Err) s 1 = Some (Ok [7%N; 1%N]) /\
+  fresh_render (fun _ => 0) outf (fun _ _ _ _ => Err) s KText = Some (Ok [0%N; 1%N]).
+Proof. vm_compute. repeat split. Qed.
